@@ -23,7 +23,8 @@ RULE = (
     "callable object returning a coroutine / a plain awaitable object, falsy callable object, callable objects with "
     "value equality (sync and async __call__) or without hash, generator-based coroutine function (types.coroutine)}; "
     "a callable may return a CLASS whose instances are awaitable; items (identity), return value and raised exception "
-    "(planned object identity / type) must not change. Second oracle: the object each library callable "
+    "(planned object identity / type) must not change; sometimes a SECOND fault is planned on another resource (which "
+    "of the two is met first must not depend on the flavours). Second oracle: the object each library callable "
     "returns before awaiting/iterating is an awaitable, async iterator or async context manager for every "
     "flavour (plus a fixed surface list: sync, apply, any_iter, await_each, borrow, scoped_iter, closing, "
     "nullcontext, ExitStack methods, lru_cache, cached_property, contextmanager, tee, groupby). "
@@ -70,6 +71,9 @@ def cases(draw, name, tier):
         })
     case["assigns"] = assigns
     case["fault_pick"] = draw(st.one_of(st.none(), st.tuples(st.integers(0, 40), st.sampled_from(EXC_NAMES))))
+    # a second planned fault on ANOTHER resource: which of the two is met first must not depend on the flavours
+    case["fault_pick2"] = draw(st.one_of(st.none(), st.tuples(st.sampled_from([0, 0, 0, 1, 2, 5, 11, 23]),
+                                                               st.sampled_from(EXC_NAMES))))
     return case
 
 
@@ -77,6 +81,7 @@ def apply_assign(case, assign):
     c = copy.deepcopy(case)
     c.pop("assigns", None)
     c.pop("fault_pick", None)
+    c.pop("fault_pick2", None)
     nsrc = len(c["srcs"])
     for i, s in enumerate(c["srcs"]):
         fl = assign["src"][i]
@@ -136,6 +141,11 @@ def check(case):
         if uses:
             res, at = uses[case["fault_pick"][0] % len(uses)]
             work = with_fault(case, res, at, case["fault_pick"][1])
+            others = [u for u in uses if u[0] != res]
+            if case.get("fault_pick2") is not None and others:
+                res2, at2 = others[case["fault_pick2"][0] % len(others)]
+                work = with_fault(work, res2, at2, case["fault_pick2"][1] if case["fault_pick2"][1] != case["fault_pick"][1]
+                                  else "LookupError")
             work.pop("single", None)
             work["assigns"] = case["assigns"]
     base = apply_assign(work, baseline_assign(work))
@@ -314,7 +324,7 @@ def check_scoped(case):
 
 def shards(tier):
     out = [
-        Shard(name, check, strategy=cases(name, tier), n=120, nontrivial=lambda c: False,
+        Shard(name, check, strategy=cases(name, tier), n=250, nontrivial=lambda c: False,
               thorough_mult=20)
         for name in ALL
     ]
